@@ -2,6 +2,8 @@ package main
 
 import (
 	"fmt"
+	"go/constant"
+	"go/token"
 	"go/types"
 	"path/filepath"
 	"strings"
@@ -52,13 +54,80 @@ func runPureFamily(c *Ctx, r *Result, roots []string, pkgs map[string]bool, min 
 	r.Count("W function family size", len(fam))
 }
 
+// machinery: the functions that implement a construct — everything of the given packages
+// reachable from the root functions through calls, without passing through the stop functions
+// (the evaluator's dispatcher) — found on the current tree, so that an extracted helper belongs
+// to it and an inlined one is simply gone. Roots that do not exist are an anchor loss only when
+// they are marked required (prefix "!").
+func (c *Ctx) machinery(r *Result, roots []string, pkgs map[string]bool, stop []string) map[*ssa.Function]bool {
+	stopSet := map[*ssa.Function]bool{}
+	for _, n := range stop {
+		if f := c.W.Fn(n); f != nil {
+			stopSet[f] = true
+		}
+	}
+	fam := map[*ssa.Function]bool{}
+	var walk func(f *ssa.Function, root bool)
+	walk = func(f *ssa.Function, root bool) {
+		if fam[f] || f.Pkg == nil || !pkgs[f.Pkg.Pkg.Name()] || (stopSet[f] && !root) {
+			return
+		}
+		fam[f] = true
+		for _, e := range c.G.Out[f] {
+			if e.Kind == "static" || e.Kind == "dynamic" {
+				walk(e.Callee, false)
+			}
+		}
+		for _, an := range f.AnonFuncs {
+			walk(an, false)
+		}
+	}
+	for _, n := range roots {
+		req := strings.HasPrefix(n, "!")
+		n = strings.TrimPrefix(n, "!")
+		f := c.W.Fn(n)
+		if f == nil {
+			if req {
+				r.LoseAnchor("function %s not found", n)
+			}
+			continue
+		}
+		walk(f, true)
+	}
+	return fam
+}
+
+func fnsOf(set map[*ssa.Function]bool) []*ssa.Function {
+	var out []*ssa.Function
+	for f := range set {
+		if len(f.Blocks) > 0 && f.Synthetic == "" {
+			out = append(out, f)
+		}
+	}
+	sortFns(out)
+	return out
+}
+
+// runPureSet: W (Eval root) restricted to a set of functions.
+func runPureSet(c *Ctx, r *Result, set map[*ssa.Function]bool, min int) {
+	before := len(r.Obls)
+	runWFiltered(c, c.G, r, "W", evalRootCfg(c), func(s wSite) bool { return set[s.f] || set[exceptionRoot(s.f)] })
+	r.RequireMin("W write sites in the machinery", len(r.Obls)-before, min)
+}
+
 // runPureNamed: W (Eval root) restricted to the named functions, their closures, and the methods
 // of the named receiver types: they keep no state between calls and write no pre-existing memory.
 func runPureNamed(c *Ctx, r *Result, names []string, recvTypes []string, min int) {
 	set := map[string]bool{}
+	found := 0
 	for _, n := range names {
 		set[n] = true
-		c.mustFn(r, n)
+		if c.W.Fn(n) != nil {
+			found++
+		}
+	}
+	if found*2 < len(names) {
+		r.LoseAnchor("fewer than half of the functions %v exist", names)
 	}
 	before := len(r.Obls)
 	runWFiltered(c, c.G, r, "W", evalRootCfg(c), func(s wSite) bool {
@@ -136,22 +205,31 @@ func init() {
 			runSEQ(c, c.G, r, "SEQ", c.W.LibSSA["jsonata"], c.Lib, c.REval.Roots)
 			r.RequireMin("SEQ producers (boxing of *sequence)", r.Counts["SEQ producers (boxing of *sequence)"], 5)
 			r.RequireMin("SEQ consumers (asSequence call sites)", r.Counts["SEQ consumers (asSequence call sites)"], 4)
-			n := runNF(c, c.G, r, "NF", c.fnsNamed(r, pathMachinery...), c.REval)
-			r.RequireMin("NF accessor sites in the path machinery", n, 20)
+			pm := c.machinery(r, []string{"!jsonata.eval", "!jsonata.evalPath", "jsonata.evalName", "jsonata.evalWildcard", "jsonata.evalDescendent", "jsonata.evalVariable", "jsonata.evalArray", "jsonata.newSequence", "jsonata.asSequence", "jsonata.lookup"}, map[string]bool{"jsonata": true}, []string{"jsonata.eval"})
+			n := runNF(c, c.G, r, "NF", fnsOf(pm), c.REval)
+			r.RequireMin("NF accessor sites in the path machinery", n, 14)
 			// a path's value depends on the expression and the input only: no step keeps state
-			runPureNamed(c, r, append([]string{"jsonata.newSequence", "jsonata.evalArray", "jsonata.evalVariable"}, pathMachinery...), []string{"jsonata.sequence"}, 18)
+			for _, f := range c.G.Funcs {
+				if f.Signature.Recv() != nil && strings.Contains(shortFn(f), "jsonata.sequence)") {
+					pm[f] = true
+				}
+			}
+			runPureSet(c, r, pm, 12)
 			r.Assume("values registered with RegisterVars and inputs passed to Eval do not contain *jsonata.sequence (unexported type: impossible from outside the package)")
 		},
 	})
 	register(&propDef{
 		ID:          "C02",
-		Explanation: "Decides the NF discipline in the predicate machinery (evalPredicate, applyFilter, arrayify, normalizeArray and the evalPath->evalPathStep->evalOverArray chain a filter path enters with an array item): every reflect accessor receiver is provably resolved on every path, interprocedurally. This is the clause behind the two panics the property names (x[$$.idx], arr[o] on [[1]]). (W) evalPredicate, applyFilter and their helpers write no pre-existing memory and keep no state between calls. NOT decided: floor/negative index arithmetic, boolean casting, number-array detection, step-local vs whole-path attachment (value-level).",
+		Explanation: "Decides the NF discipline in the predicate machinery (evalPredicate, applyFilter, arrayify, normalizeArray and the evalPath->evalPathStep->evalOverArray chain a filter path enters with an array item): every reflect accessor receiver is provably resolved on every path, interprocedurally. This is the clause behind the two panics the property names (x[$$.idx], arr[o] on [[1]]). (W) evalPredicate, applyFilter and their helpers write no pre-existing memory and keep no state between calls. (LISTFLOW) in evalPredicate every filter is applied to arrayify of the step's own value or of the survivor list the previous applyFilter returned, and the result is no value or normalizeArray of those survivors — never an element picked out of the list, which arrayify would mistake for the list when it is itself an array. NOT decided: floor/negative index arithmetic, boolean casting, number-array detection, step-local vs whole-path attachment (value-level).",
 		Rule:        commonRule,
 		Fixtures:    []string{"nf", "w"},
 		Run: func(c *Ctx, r *Result) {
-			n := runNF(c, c.G, r, "NF", c.fnsNamed(r, predicateMachinery...), c.REval)
-			r.RequireMin("NF accessor sites in the predicate machinery", n, 10)
-			runPureNamed(c, r, append([]string{"jlib.Boolean"}, predicateMachinery...), nil, 8)
+			qm := c.machinery(r, []string{"!jsonata.evalPredicate", "jsonata.evalPath", "jlib.Boolean"}, map[string]bool{"jsonata": true, "jlib": true}, []string{"jsonata.eval"})
+			n := runNF(c, c.G, r, "NF", fnsOf(qm), c.REval)
+			r.RequireMin("NF accessor sites in the predicate machinery", n, 7)
+			runPureSet(c, r, qm, 5)
+			lf := runLISTFLOW(c, r, "LISTFLOW")
+			r.RequireMin("LISTFLOW obligations in evalPredicate", lf, 2)
 		},
 	})
 	register(&propDef{
@@ -171,8 +249,7 @@ func init() {
 			r.RequireMin("TAB led/nud registration-vs-switch checks", k, 4)
 			ot := runOPTAB(c, r, "OPTAB")
 			r.RequireMin("OPTAB operator-table obligations", ot, 17)
-			runPureNamed(c, r, []string{"jsonata.evalNumericOperator", "jsonata.evalComparisonOperator", "jsonata.evalBooleanOperator", "jsonata.evalStringConcatenation", "jsonata.evalRange",
-				"jsonata.evalConditional", "jsonata.evalNegation", "jsonata.eq", "jsonata.lt", "jsonata.lte", "jsonata.in"}, nil, 5)
+			runPureSet(c, r, c.machinery(r, []string{"!jsonata.evalNumericOperator", "!jsonata.evalComparisonOperator", "!jsonata.evalBooleanOperator", "jsonata.evalStringConcatenation", "jsonata.evalRange", "jsonata.evalConditional", "jsonata.evalNegation"}, map[string]bool{"jsonata": true}, []string{"jsonata.eval"}), 3)
 			r.Assume("numbers entering evaluation (decoded JSON, number literals) are finite; FIN shows finiteness is preserved")
 		},
 	})
@@ -218,7 +295,7 @@ func init() {
 			k := runLIT(c, r, "LIT")
 			r.RequireMin("LIT literal-flow obligations", k, 6)
 			runW(c, c.G, r, "W-compile", compileRootCfg(c))
-			runPureNamed(c, r, []string{"jsonata.evalNumber", "jsonata.evalString", "jsonata.evalBoolean", "jsonata.evalNull", "jsonata.evalArray", "jsonata.evalObject", "jsonata.groupItemsByKey"}, nil, 5)
+			runPureSet(c, r, c.machinery(r, []string{"jsonata.evalNumber", "jsonata.evalString", "jsonata.evalBoolean", "jsonata.evalNull", "!jsonata.evalArray", "!jsonata.evalObject"}, map[string]bool{"jsonata": true}, []string{"jsonata.eval"}), 3)
 		},
 	})
 	register(&propDef{
@@ -242,7 +319,7 @@ func init() {
 			}
 			cv := runCOVER(c, r, "COVER", cf, nil)
 			r.RequireMin("COVER traversal loops in the object machinery", cv, 8)
-			runPureNamed(c, r, []string{"jsonata.evalObject", "jsonata.groupItemsByKey", "jsonata.evalGroup", "jsonata.lookup"}, nil, 5)
+			runPureSet(c, r, c.machinery(r, []string{"!jsonata.evalObject", "jsonata.evalGroup", "jsonata.lookup"}, map[string]bool{"jsonata": true}, []string{"jsonata.eval"}), 3)
 			runPureFamily(c, r, []string{"jlib.Keys", "jlib.Each", "jlib.Sift", "jlib.Spread", "jlib.Merge"}, map[string]bool{"jlib": true}, 15)
 		},
 	})
@@ -396,7 +473,68 @@ var panicExceptions = map[string]string{
 	"jsonata.lt":          "lt panics for operands that are not both numbers or both strings; its callers (evalComparisonOperator after the type gate, makeLessFunc after buildSortInfo's type bookkeeping, lte) establish that by value reasoning the analysis does not model: listed, not decided",
 }
 
+// exhaustiveEnumDefault: the instruction is reached only over the false edges of `tag == K` for
+// every declared constant K of tag's named integer type (the default of an exhaustive switch,
+// wherever the switch lives). Returns the type name, or "".
+func exhaustiveEnumDefault(c *Ctx, ins ssa.Instruction) string {
+	seen := map[string]map[int64]bool{} // type -> constants excluded
+	tagOf := map[string]ssa.Value{}
+	for d := ins.Block(); d != nil; d = d.Idom() {
+		if len(d.Preds) != 1 {
+			continue
+		}
+		pr := d.Preds[0]
+		iff, ok := pr.Instrs[len(pr.Instrs)-1].(*ssa.If)
+		if !ok || pr.Succs[1] != d || pr.Succs[0] == d {
+			continue
+		}
+		bo, ok := iff.Cond.(*ssa.BinOp)
+		if !ok || bo.Op != token.EQL {
+			continue
+		}
+		k, ok := bo.Y.(*ssa.Const)
+		if !ok || k.Value == nil || k.Value.Kind() != constant.Int {
+			continue
+		}
+		nt, ok := bo.X.Type().(*types.Named)
+		if !ok || nt.Obj().Pkg() == nil || !c.Lib[nt.Obj().Pkg()] {
+			continue
+		}
+		name := nt.Obj().Pkg().Name() + "." + nt.Obj().Name()
+		if prev, has := tagOf[name]; has && prev != bo.X {
+			if bndCtx == nil || bndCtx.canon(prev) != bndCtx.canon(bo.X) {
+				continue
+			}
+		}
+		tagOf[name] = bo.X
+		if seen[name] == nil {
+			seen[name] = map[int64]bool{}
+		}
+		v, _ := constant.Int64Val(k.Value)
+		seen[name][v] = true
+	}
+	for name, ks := range seen {
+		nt := tagOf[name].Type().(*types.Named)
+		all, n := true, 0
+		scope := nt.Obj().Pkg().Scope()
+		for _, nm := range scope.Names() {
+			if cst, ok := scope.Lookup(nm).(*types.Const); ok && types.Identical(cst.Type(), nt) {
+				n++
+				v, _ := constant.Int64Val(cst.Val())
+				if !ks[v] {
+					all = false
+				}
+			}
+		}
+		if all && n > 0 {
+			return name
+		}
+	}
+	return ""
+}
+
 func runPanics(c *Ctx, r *Result, rule string, reach *Reach, tabProved map[string]bool) int {
+	bndCtx = c
 	n := 0
 	for _, f := range srcFuncsIn(reach) {
 		if f.Name() == "panicf" {
@@ -433,6 +571,8 @@ func runPanics(c *Ctx, r *Result, rule string, reach *Reach, tabProved map[strin
 			switch {
 			case tabProved[shortFn(f)]:
 				o.Verdict, o.Reason = Discharged, "the panic is the default of a dispatch switch that TAB shows exhaustive over everything the parser can produce"
+			case exhaustiveEnumDefault(c, ins) != "":
+				o.Verdict, o.Reason = Discharged, "the panic is reached only when a value of type "+exhaustiveEnumDefault(c, ins)+" differs from every declared constant of that type"
 			case panicExceptions[shortFn(f)] != "":
 				o.Verdict, o.Reason = Exception, panicExceptions[shortFn(f)]
 			default:
@@ -475,7 +615,7 @@ func init() {
 			r.RequireMin("IDX reflect.Value.Index sites under Eval", ix, 40)
 			h := runHASH(c, r, "HASH", srcFuncsIn(c.REval), c.REval)
 			r.Count("HASH interface-keyed map accesses under Eval", h)
-			runBNDFor(c, r, "BND", c.REval, "Eval", 250, 70)
+			runBNDFor(c, r, "BND", c.REval, "Eval", 180, 50)
 			ta := runTA(c, r, "TA", libFuncsIn(c, c.REval), c.REval)
 			r.RequireMin("TA single-result type assertions under Eval", ta, 10)
 			ro := runRO(c, r, "RO", libFuncsIn(c, c.REval), c.REval)
@@ -581,6 +721,7 @@ func pkgRegisterRootCfg(c *Ctx) *wRootCfg {
 			roots = append(roots, f)
 		}
 	}
+	var pkgReach *Reach
 	return &wRootCfg{
 		Name:  "root package-level RegisterExts/RegisterVars",
 		Roots: roots,
@@ -589,6 +730,24 @@ func pkgRegisterRootCfg(c *Ctx) *wRootCfg {
 		},
 		AllowWrite: func(f *ssa.Function, ins ssa.Instruction) string {
 			if shortFn(f) != "jsonata.updateGlobalRegistry" {
+				// a helper that is handed &globalRegistry by every caller under these roots (the call itself
+				// is a write access for LOCK)
+				if pkgReach == nil {
+					pkgReach = c.G.Reach(roots...)
+				}
+				in := func(fn *ssa.Function) bool { return pkgReach.Set[fn] }
+				switch x := ins.(type) {
+				case *ssa.Store:
+					if g := paramGlobal(c, x.Addr, in); g != nil && g.Name() == "globalRegistry" {
+						if _, isParam := x.Addr.(*ssa.Parameter); isParam {
+							return "the target is the global registry, whose address every caller passes with globalRegistryMutex held (decided by LOCK at the call)"
+						}
+					}
+				case *ssa.MapUpdate:
+					if g := paramGlobal(c, x.Map, in); g != nil && g.Name() == "globalRegistry" {
+						return "the map is the global registry, whose address every caller passes with globalRegistryMutex held (decided by LOCK at the call)"
+					}
+				}
 				return ""
 			}
 			switch x := ins.(type) {
@@ -802,7 +961,7 @@ func init() {
 			tabProved := map[string]bool{"jparse.parseBoolean": true, "jparse.parseNumericOperator": true, "jparse.parseComparisonOperator": true, "jparse.parseBooleanOperator": true}
 			p := runPanics(c, r, "PANIC", c.RCompile, tabProved)
 			r.RequireMin("PANIC string panics under Compile", p, 4)
-			runBNDFor(c, r, "BND", c.RCompile, "Compile", 55, 25)
+			runBNDFor(c, r, "BND", c.RCompile, "Compile", 40, 15)
 			ta := runTA(c, r, "TA", libFuncsIn(c, c.RCompile), c.RCompile)
 			r.RequireMin("TA single-result type assertions under Compile", ta, 3)
 			r.Assume("the input string is finite; regexp.Compile, strconv.ParseFloat and utf8/utf16 functions terminate and do not panic")
